@@ -451,7 +451,9 @@ class ToExec:
                     done = len(pc.requests())
                 except Exception:  # noqa: BLE001
                     done = 0
-                if done >= len(pc.history):
+                # "written" = on the wire and accepted: while the transport has paused the
+                # protocol's writing the client is still in its send phase (drain() pending)
+                if done >= len(pc.history) and not pc.tr.write_paused:
                     rq.t_written = self.loop.time()
             if pc.tr.reading_paused:
                 rq.was_paused = True
@@ -521,6 +523,10 @@ class ToExec:
         """Un-stall everything, let bystander finish, then probe the session with follow-ups."""
         self.settle()
         v = self.reqs["v"]
+        # the stall persists: let virtual time run to the horizon while the victim is pending, so
+        # that every execution ends with the victim either finished or past all its deadlines
+        while v.status == "pending" and self.tick():
+            self.settle()
         for _ in range(60):
             progressed = False
             if self.dns_done():
@@ -579,6 +585,14 @@ class ToExec:
     def teardown(self) -> None:
         self.watchdog.cancel()
         self.kit.close()
+        # nothing may leak into the next execution on this loop
+        left = [t for t in asyncio.all_tasks(self.loop) if not t.done()]
+        for t in left:
+            t.cancel()
+        if left:
+            self.loop.run_until_idle()
+            self.loop._scheduled.clear()
+            self.loop.exc_contexts.clear()
         self.loop._vtime = 0.0
 
     def trace(self, src: str) -> dict:
@@ -976,7 +990,9 @@ def dedupe(traces: List[dict]) -> List[dict]:
     seen = set()
     out = []
     for t in traces:
-        k = json.dumps([t["cfg"], [(e["ev"], e["who"], e["part"], e["obs"]["t"]) for e in t["events"]]])
+        pr = t.get("params", {})
+        k = json.dumps([t["cfg"], pr.get("body"), pr.get("chunked_resp"), pr.get("cutsel"),
+                        [(e["ev"], e["who"], e["part"], e["obs"]["t"]) for e in t["events"]]])
         if k not in seen:
             seen.add(k)
             out.append(t)
@@ -1003,7 +1019,6 @@ def free_models(ctx: Ctx) -> List[tuple]:
     """(name, constants, as-coded invariants, also-check-the-repaired-design)"""
     no_su = [i for i in AS_CODED_INV if i != "SessionUsable"]
     ms_ = [
-        ("total<thr L1", dict(TOtotal=3), AS_CODED_INV, False),
         ("all four kinds L2", dict(TOtotal=6, TOconnect=5, TOsockc=3, TOread=2, Limit=2), AS_CODED_INV, False),
         ("total + sock_read + big chunk (read pause/resume)", dict(TOtotal=6, TOread=3, BigChunk=True), no_su, True),
         ("total>=thr + blocked writer", dict(TOtotal=5, Body="block", AllowPause=True), AS_CODED_INV, False),
@@ -1011,6 +1026,7 @@ def free_models(ctx: Ctx) -> List[tuple]:
     ]
     if not ctx.quick:
         ms_ += [
+            ("total<thr L1", dict(TOtotal=3), AS_CODED_INV, True),
             ("connect>thr L1 offset 0", dict(TOconnect=5, Offset=0), AS_CODED_INV, False),
             ("sock_connect L2", dict(TOsockc=3, Limit=2), AS_CODED_INV, False),
             ("total + sock_read, 2 partial deliveries, L2", dict(TOtotal=7, TOread=3, MaxPartial=2, Limit=2, Horizon=16),
@@ -1099,7 +1115,7 @@ def run(ctx: Ctx) -> None:
             has_cut = any(("partial" in l or '"data"' in l) for l in labels)
             variants = [(0, 0)]
             if has_cut:
-                variants += [(c, 0) for c in ctx.pick((1, 3, 4, 6), (1, 2, 3, 4, 5, 6))]
+                variants += [(c, 0) for c in ctx.pick((3, 6), (1, 2, 3, 4, 5, 6))]
             if mc["Body"] == "block":
                 variants += [(0, 1)]
             for (cut, bv) in variants:
@@ -1109,13 +1125,16 @@ def run(ctx: Ctx) -> None:
     ctx.extra["scenarios_replayed"] = nscn
     uniq = dedupe(traces)
     ctx.extra["scenario_replays"] = {"replays": len(traces), "distinct_executions": len(uniq)}
+    ctx.log(f"{len(traces)} scenario replays, {len(uniq)} distinct executions to judge")
     for i in range(0, len(uniq), 1500):
         judge(ctx, uniq[i:i + 1500], "tlc-scenario")
     # ---- 3. TLC-simulated behaviours of the free model
     sims: List[dict] = []
-    for (name, kw) in [("all four kinds L2", dict(TOtotal=6, TOconnect=5, TOsockc=3, TOread=2, Limit=2)),
-                       ("blocked writer", dict(TOtotal=5, TOread=3, Body="block", AllowPause=True)),
-                       ("expect100 + big chunk", dict(TOtotal=6, TOread=3, Body="small", Expect100=True, BigChunk=True))]:
+    simcfgs = [("all four kinds L2", dict(TOtotal=6, TOconnect=5, TOsockc=3, TOread=2, Limit=2)),
+               ("expect100 + big chunk", dict(TOtotal=6, TOread=3, Body="small", Expect100=True, BigChunk=True))]
+    if not ctx.quick:
+        simcfgs.append(("blocked writer", dict(TOtotal=5, TOread=3, Body="block", AllowPause=True)))
+    for (name, kw) in simcfgs:
         mc = dict(DEFAULTS)
         mc.update(kw)
         behs, _ = simulate_behaviours("ClientTimeouts", write_cfg("sim", invariants=[], **mc),
@@ -1129,7 +1148,7 @@ def run(ctx: Ctx) -> None:
         judge(ctx, sims[i:i + 1500], "tlc-sim")
     # ---- 4. random fault schedules
     batch: List[dict] = []
-    for _ in range(ctx.pick(1000, 25000)):
+    for _ in range(ctx.pick(600, 12000)):
         batch.append(random_exec(ctx, loop, ctx.rng))
         if len(batch) >= 1500:
             judge(ctx, batch, "random")
